@@ -388,6 +388,31 @@ for _p in ('C02', 'C06', 'C12'):
 _add('C13', 'DeeprobModel.Props.C13Clt', 'Deeprob.GraphIo', ['cltEncode_form', 'cltDecode_encode', 'cltDecode_rejects_non_tree', 'cltDecode_accepts_only_trees',
      'cltLoad32_encode', 'cltDocs_stable_from_gen2', 'cltDocs_stable_from_gen1_of_f32'], [])
 
+# translator wave 4 (operation cascade of learn_spn, CLT likelihood / mpe / message passing / bfs, body of marginalize, MI and CLT
+# parameters, cutset-network learner loops, RAT-SPN top-down layers, sum_sample)
+_S4 = 'Deeprob.Struct4'
+for _p in ('C04', 'C05'):
+    _add(_p, _O + 'Struct4Learn', _S4, ['selectOp_as_coded', 'operationKind_as_coded', 'zeroVar_axis_as_coded', 'zeroVarTest_as_coded'],
+         ['learnspn.select_op', 'learnspn.zero_var_test'])
+_CLT4 = ['graph.compute_bfs_ordering', 'cltree.log_likelihood', 'cltree.mpe', 'cltree.message_passing.body']
+for _p in ('C02', 'C06', 'C12'):
+    _add(_p, _O + 'Struct4Clt', _S4, ['bfsStep_as_coded', 'bfs_as_coded', 'bfsPop_as_coded', 'logLikelihood_as_coded', 'joint_as_coded', 'mpe_as_coded',
+                                      'pickOf_is_chosen', 'mpeStep_observed'], _CLT4)
+    _add(_p, _O + 'Struct4CltMsg', _S4, ['messages_as_coded', 'msgStep_mar_is_up', 'msgStep_mpe_is_upMax', 'rootValue_is_up'], [])
+_add('C06', _O + 'Struct4CltMpe', _S4, ['mem_decodeList', 'dec_parent', 'mpe_loop_is_dec', 'mpe_loop_is_decode'], [])
+_add('C10', _O + 'Struct4Rewrite', _S4, ['margStep_as_coded', 'margStep_leaves_as_coded', 'margPass_as_coded', 'margSteps_as_coded', 'margTree_shape'],
+     ['structure.marginalize.body'])
+_add('C11', _O + 'Struct4CltFit', _S4, ['miOuters_as_coded', 'miTerm_as_coded', 'mutualInfo_as_coded', 'rawParam_as_coded', 'cpt_as_coded', 'fit_steps_as_coded'],
+     ['statistics.compute_mutual_information', 'cltree.compute_clt_parameters', 'cltree.fit'])
+_add('C18', _O + 'Struct4Cnet', _S4, ['fitStep_as_coded', 'step_fit_cut_as_coded', 'fit_frame_as_coded', 'bdStep_as_coded', 'bicStep_as_coded', 'step_bd_cut_as_coded',
+                                     'step_bic_cut_as_coded', 'candidates_as_coded'],
+     ['cnet.fit', 'cnet_bayesian.learn_cnet_bd', 'cnet_bayesian.learn_cnet_bic', 'cnet_bayesian.select_cand_cuts'])
+_add('C16', _O + 'Struct4RatSpn', _S4, ['prodSample_as_coded', 'sumMpe_as_coded', 'rootMpe_as_coded', 'rootSample_as_coded', 'sumSample_as_coded', 'unpadSamples_as_coded',
+                                       'baseMpe_as_coded', 'modelMpe_as_coded', 'modelSample_as_coded', 'mpeDown_order'],
+     ['ratspn.ProductLayer.sample', 'ratspn.SumLayer.mpe', 'ratspn.SumLayer.sample', 'ratspn.RootLayer', 'ratspn.RegionGraphLayer.mpe', 'ratspn.RatSpn.mpe',
+      'ratspn.RatSpn.sample'])
+_add('C07', _O + 'Struct4Sampling', _S4, ['sumSampleEntry_as_coded', 'branchPmf_as_coded', 'sumSample_frame_as_coded'], ['sampling.sum_sample.entry', 'sampling.sum_sample'])
+
 # net-level prune / marginalize theorems (wave 2)
 PROPS['C09']['modules'] += ['DeeprobModel.Props.C09NetMore', 'DeeprobModel.Props.C09NetKahn']
 PROPS['C09']['theorems'] += ['Deeprob.pruneNet_normal_form', 'Deeprob.pruneNet_valid', 'Deeprob.pruneNet_checkSpn', 'Deeprob.pruneNet_fix',
